@@ -84,7 +84,7 @@ def run(ctx):
                     "failures; at every refresh the STORED bases are checked (orthonormal; eigh: diagonalise the stored factor, ascending "
                     "Rayleigh quotients; QR with one iteration: columns of qr(A Q_prev) up to sign/order), written only at refresh steps "
                     "(bitwise otherwise); given the stored bases, corrected eigenvalues / direction / parameters equal the float64 "
-                    "rotated-Adam reference (rtol 1e-8); dtype pairings incl. bf16 parameters with fp32 factors validated by TLC")
+                    "rotated-Adam reference (relative 1e-7); QR bases against the k-iteration update of the previous basis; dtype pairings incl. bf16 parameters with fp32 factors validated by TLC")
     if tasks:
         g0 = tasks[0][0]["groups"][0]
         ctx.sample({"group0": {k: g0[k] for k in ("shapes", "maxdim", "method", "qr_iters", "freq", "start", "beta2", "ignored")},
